@@ -229,6 +229,33 @@ def classify(diags, linemap, genfile):
     return failures, tool_errors
 
 
+def _aux_cache(genfile, kind, key):
+    h = hashlib.sha256()
+    h.update(open(genfile, 'rb').read())
+    h.update(('|%s|%s|%s' % (verus_version(), kind, key)).encode())
+    return os.path.join(CACHE, 'aux-' + h.hexdigest()[:32] + '.json')
+
+
+def _run_cached(genfile, kind, key, cmd, timeout):
+    """run a single-function verus command once per (generated file, function); returns stderr text or None on timeout"""
+    os.makedirs(CACHE, exist_ok=True)
+    cp = _aux_cache(genfile, kind, key)
+    if os.path.exists(cp):
+        try:
+            return json.load(open(cp))['stderr']
+        except Exception:
+            pass
+    try:
+        p = subprocess.run(cmd, capture_output=True, text=True, cwd=VERIF, timeout=timeout)
+        err = p.stderr
+    except subprocess.TimeoutExpired:
+        err = None
+    tmp = cp + '.%d' % os.getpid()
+    json.dump({'stderr': err}, open(tmp, 'w'))
+    os.replace(tmp, cp)
+    return err
+
+
 def narrow(genfile, failures, linemap, timeout=900):
     """A failed clause that carries several obligation tags (a conjunction under one binder) is narrowed to
     the failing conjuncts with Verus' --expand-errors on that one function.  If the expansion gives nothing
@@ -247,12 +274,11 @@ def narrow(genfile, failures, linemap, timeout=900):
                '--triggers-mode', 'silent', '--multiple-errors', '8', '--expand-errors', '--error-format=json',
                '--verify-function', '*' + tail]
         cmd += ['--verify-only-module', mod] if mod and mod not in ('spec', 'prelude') else ['--verify-root']
-        try:
-            p = subprocess.run(cmd, capture_output=True, text=True, cwd=VERIF, timeout=timeout)
-        except subprocess.TimeoutExpired:
+        err = _run_cached(genfile, 'narrow', fn, cmd, timeout)
+        if err is None:
             continue
         leaf = []
-        for line in p.stderr.splitlines():
+        for line in err.splitlines():
             line = line.strip()
             if not line.startswith('{'):
                 continue
@@ -299,6 +325,7 @@ def retry_rlimit(genfile, fn, module, linemap, scale=4, timeout=3600):
     txt2 = re.sub(r'#\[verifier::rlimit\((\d+)\)\]', lambda mo: '#[verifier::rlimit(%d)]' % (int(mo.group(1)) * scale), txt)
     rfile = genfile.replace('.rs', '_retry.rs')
     open(rfile, 'w').write(txt2)
+    orig_genfile = genfile
     tail = re.sub(r'@\w+::', '::', fn)
     if module and tail.startswith(module + '::'):
         tail = tail[len(module) + 2:]
@@ -306,12 +333,11 @@ def retry_rlimit(genfile, fn, module, linemap, scale=4, timeout=3600):
            '--triggers-mode', 'silent', '--multiple-errors', '8', '--error-format=json', '--rlimit', str(10 * scale),
            '--verify-function', '*' + tail]
     cmd += ['--verify-only-module', module] if module and module not in ('spec', 'prelude') else ['--verify-root']
-    try:
-        p = subprocess.run(cmd, capture_output=True, text=True, cwd=VERIF, timeout=timeout)
-    except subprocess.TimeoutExpired:
+    err = _run_cached(orig_genfile, 'retry%d' % scale, fn, cmd, timeout)
+    if err is None:
         return 'rlimit', []
     diags = []
-    for line in p.stderr.splitlines():
+    for line in err.splitlines():
         line = line.strip()
         if line.startswith('{'):
             try:
